@@ -257,14 +257,16 @@ class Func:
             if not line or line.startswith(';') or line.startswith('#dbg'): continue
             if pending is not None:
                 pending += ' ' + line
-                if line.endswith(']'):
+                if line.startswith(']'):
                     cur.append(parse_instr(pending)); pending = None
                 continue
             m = re.match(r'^("(?:[^"\\]|\\.)*"|[-\w.$]+):', line)
             if m and not line.startswith('%'):
                 label = m.group(1); cur = []; s.blocks['%' + label] = cur; s.order.append('%' + label); continue
             if cur is None:
-                label = 'entry0'; cur = []; s.blocks['%entry0'] = cur; s.order.append('%entry0')
+                # the unlabelled entry block takes the next unnamed-value number after the unnamed parameters
+                k = sum(1 for (_, pn) in s.params if pn is None or re.match(r'^%\d+$', pn))
+                label = str(k); cur = []; s.blocks['%' + label] = cur; s.order.append('%' + label)
             if re.search(r'\bswitch\b', line) and line.endswith('['):
                 pending = line; continue
             cur.append(parse_instr(line))
@@ -330,6 +332,9 @@ BINOPS = {'add', 'sub', 'mul', 'and', 'or', 'xor', 'shl', 'lshr', 'ashr', 'udiv'
 CASTS = {'zext', 'sext', 'trunc', 'ptrtoint', 'inttoptr', 'bitcast', 'addrspacecast'}
 
 def parse_instr(line):
+    # metadata attachments (`, !dbg !12`, `, !noalias !7`, ...) always trail the instruction
+    i = line.find(', !')
+    if i >= 0: line = line[:i]
     tk = Toks(tokenize(line), line)
     dest = None
     if tk.peek()[0] == 'local' and tk.peek(1)[1] == '=':
@@ -543,6 +548,7 @@ class State:
         s.trace = []
         s.model = None
         s.known = {}     # z3 ast id of an already decided branch condition -> its truth value on this path
+        s.gover = {}     # per-path copies of mutable globals
     def fork(s):
         n = State()
         n.objs = dict(s.objs); n.bases = list(s.bases); n.owned = set(); s.owned = set()
@@ -550,6 +556,7 @@ class State:
         n.frames = [f.clone() for f in s.frames]
         n.pc = list(s.pc); n.steps = s.steps; n.trace = list(s.trace); n.model = s.model
         n.known = dict(s.known)
+        n.gover = dict(s.gover)
         return n
     def alloc(s, size, name, ro=False):
         base = s.next_base
@@ -562,9 +569,14 @@ class State:
             g = GLOBALS
             i = bisect.bisect_right(g.bases, addr) - 1
             if i < 0: raise Event('memerr', 'bad global address %#x' % addr)
-            o = g.objs[g.bases[i]]
+            base = g.bases[i]
+            o = s.gover.get(base) or g.objs[base]
             if addr + n > o.base + o.size: raise Event('memerr', 'access %#x+%d outside %s(size %d)' % (addr, n, o.name, o.size))
-            if write: raise Event('unsupported' if not o.ro else 'memerr', 'write to global ' + o.name)
+            if write:
+                if o.ro: raise Event('memerr', 'write to constant ' + o.name)
+                # mutable global (`static mut`): per-path copy on write
+                if base not in s.owned or base not in s.gover:
+                    o = o.clone(); s.gover[base] = o; s.owned.add(base)
             return o
         i = bisect.bisect_right(s.bases, addr) - 1
         if i < 0: raise Event('memerr', 'address %#x below all objects' % addr)
@@ -601,6 +613,7 @@ PANIC_PAT = re.compile(r'panick|panic_|slice_error_fail|slice_index_fail|slice_s
                        r'7handle_error|begin_panic|rust_panic|4core6option13|4core6result13|core..cell..panic')
 
 GADDR = {}
+FADDR = {}
 class Exec:
     def __init__(s, mod, max_steps=200000):
         s.mod = mod
@@ -660,7 +673,7 @@ class Exec:
         if name in s.mod.funcs or name in s.mod.decls:
             # function address: fake
             a = 0x7000_0000_0000 + len(s.gaddr) * 16
-            s.gaddr[name] = a; s.faddr = getattr(s, 'faddr', {}); s.faddr[a] = name
+            s.gaddr[name] = a; FADDR[a] = name
             return a
         line = s.mod.globals.get(name)
         if line is None: raise Event('unsupported', 'unknown global ' + name)
@@ -1031,7 +1044,7 @@ class Exec:
         _, d, rty, callee, args = ins
         if callee[0] == 'local':
             fp = fr.regs[callee[1]]
-            name = getattr(s, 'faddr', {}).get(fp)
+            name = FADDR.get(fp)
             if name is None: raise Event('unsupported', 'indirect call to %r' % (fp,))
         else:
             name = callee[1]
